@@ -1061,6 +1061,9 @@ pub fn run(ctx: &Ctx) -> Report {
                 let nvars = num_vars(clauses);
                 let (open, depth) = if *small { (nvars + 1, d3) } else { (open4, d4) };
                 for unobserved in [false, true] {
+                    if unobserved && crate::core::disabled("unobserved") {
+                        continue;
+                    }
                     let res = if unobserved { explore_cnf_unobserved(clauses, nvars, open, depth, *small) } else { explore_cnf_unmerged(clauses, nvars, open, depth, *small) };
                     r.transitions += res.transitions;
                     r.add_extra(if unobserved { "unobserved_sequences" } else { "unmerged_sequences" }, res.states);
